@@ -101,23 +101,21 @@ def net_growth(ops):
     return g
 
 
-def capacity_guard(lit, xfield, size_field, arrivals):
-    """Does the branch literal bound the fill level below capacity?
-    Accepted: len(X) < size ; arrivals_after_increment <= size ; arrivals_before < size."""
+def _capacity_forms(xfield, size_field, arrivals):
+    """Literals meaning 'fill level below capacity': len(X) < size ; arrivals+1 <= size ; arrivals < size."""
     size = ("field0", size_field)
-    lenx = ("fn", "len", (("field0", xfield),))
-    if lit == ("cmp", "<", lenx, size) or lit == ("cmp", ">", size, lenx):
-        return True
-    if lit == ("not", ("cmp", ">=", lenx, size)) or lit == ("not", ("cmp", "<=", size, lenx)):
-        return True
+    forms = [("cmp", "<", ("fn", "len", (("field0", xfield),)), size)]
     if arrivals:
         a0 = ("field0", arrivals)
-        a1 = ("op", "+", a0, ("const", 1))
-        if lit in (("cmp", "<=", a1, size), ("cmp", ">=", size, a1), ("cmp", "<", a0, size), ("cmp", ">", size, a0),
-                   ("not", ("cmp", ">", a1, size)), ("not", ("cmp", "<", size, a1)),
-                   ("not", ("cmp", ">=", a0, size)), ("not", ("cmp", "<=", size, a0))):
-            return True
-    return False
+        forms += [("cmp", "<=", ("op", "+", a0, ("const", 1)), size), ("cmp", "<", a0, size)]
+    return forms
+
+
+def capacity_guard(lit, xfield, size_field, arrivals):
+    """Does the branch literal bound the fill level below capacity (any spelling)?"""
+    from .boolalg import literal
+    a, pol = literal(lit)
+    return any(literal(f) == (a, pol) for f in _capacity_forms(xfield, size_field, arrivals))
 
 
 def full_guard(lit, xfield, size_field, arrivals):
